@@ -71,6 +71,14 @@ def check_case(ctx, quals, cf, cb, base, seq, cases_q, cases_n, impl):
     if tuple(got) != exp:
         ctx.failures.append(Failure("C13/quality-trim-index", "quality_trim_index deviates from the BWA specification",
                                     dict(qualities=qs, cutoff_front=cf, cutoff_back=cb, base=base), list(got), list(exp)))
+    # consequence proved for the model (C13.trim3_idempotent): 3' trimming of the already trimmed read removes nothing more
+    # (5' cutoff -1000: no quality is below it, so the 5' scan stops at once and only the 3' side acts)
+    stop1 = impl["qti"](qs, -1000, cb, base)[1]
+    again = tuple(impl["qti"](qs[:stop1], -1000, cb, base))
+    if again != (0, stop1):
+        ctx.failures.append(Failure("C13/trim3-not-idempotent", "3' quality trimming of an already trimmed read removes more bases "
+                                    "(so the first run did not remove the BWA-defined end)",
+                                    dict(qualities=qs, cutoff_front=-1000, cutoff_back=cb, base=base, twice=True), list(again), [0, stop1]))
     # modifier: counter and slice
     rec = SequenceRecord("r", seq, qs)
     qt = impl["QualityTrimmer"](cf, cb, base)
